@@ -1,4 +1,4 @@
-#!/usr/bin/env python3
+#!/verif/.venv/bin/python
 """generate the as-built tables of DESIGN.md (harness inventory, fixes, known findings, seeded changes) from the repository's own data"""
 import json, os, glob, importlib, sys, subprocess
 V = "/verif"; sys.path.insert(0, V); sys.path.insert(0, "/repo")
